@@ -29,6 +29,9 @@ import (
 type Fail struct {
 	Sig    string
 	Detail string
+	// Sampled marks a failure of a supplementary sampling pass (e.g. the free-running race
+	// detector run): it is reported as found, without the 5x identical re-run requirement.
+	Sampled bool
 }
 
 func Failf(sig, format string, a ...interface{}) *Fail {
@@ -342,7 +345,7 @@ func (t *T) fail(desc string, f *Fail, recheck func() *Fail) {
 	v = &violation{Part: t.name, Sig: sig, Case: desc, Detail: f.Detail, Count: 1}
 	t.r.violations[sig] = v
 	t.r.mu.Unlock()
-	if recheck != nil {
+	if recheck != nil && !f.Sampled {
 		for i := 0; i < 5; i++ {
 			g := t.safe(recheck)
 			if g == nil || g.Sig != f.Sig {
